@@ -62,3 +62,21 @@ package app
 // Assumed contract on the staking keeper behind app.StakingKeeper: a read.
 //@ func (sk StakingKeeper).GetValidatorByConsAddr(ctx, consAddr) (validator, err)
 //@ trusted
+
+// ---- accepting a vote extension (C17) ----
+// An extension that decodes is accepted only when it carries no more attestations than were requested for the
+// previous height and its signatures are at most 65 bytes long; one that does not decode is accepted only from a
+// validator without a registered EVM address. ACCEPT is status 1, REJECT status 2.
+//@ define vx_att(b) = jsonlen("app.BridgeVoteExtension.OracleAttestations", b)
+//@ define vx_siga(b) = jsonlen("app.BridgeVoteExtension.InitialSignature.SignatureA", b)
+//@ define vx_sigb(b) = jsonlen("app.BridgeVoteExtension.InitialSignature.SignatureB", b)
+//@ define vx_vsig(b) = jsonlen("app.BridgeVoteExtension.ValsetSignature.Signature", b)
+
+//@ func (h *VoteExtHandler).VerifyVoteExtensionHandler(ctx, req) (resp, err)
+//@ requires [handler_and_request_present] h != nil && req != nil
+//@ ensures [always_answers_without_error] err == nil && resp != nil
+//@ ensures [a_decodable_extension_is_accepted_only_with_bounded_signatures] resp.Status == 1 && jsonok("app.BridgeVoteExtension", bytes(req.VoteExtension)) ==> vx_siga(bytes(req.VoteExtension)) <= 65 && vx_sigb(bytes(req.VoteExtension)) <= 65 && vx_vsig(bytes(req.VoteExtension)) <= 65
+//@ ensures [no_attestations_are_accepted_when_none_were_requested] resp.Status == 1 && jsonok("app.BridgeVoteExtension", bytes(req.VoteExtension)) && !has(bridge.AttestRequestsByHeightMap, blockheight(ctx) - 1) && blockheight(ctx) >= 1 ==> vx_att(bytes(req.VoteExtension)) == 0
+//@ ensures [never_more_attestations_than_requested] resp.Status == 1 && jsonok("app.BridgeVoteExtension", bytes(req.VoteExtension)) && has(bridge.AttestRequestsByHeightMap, blockheight(ctx) - 1) && blockheight(ctx) >= 1 ==> vx_att(bytes(req.VoteExtension)) <= len(bridge.AttestRequestsByHeightMap[blockheight(ctx) - 1].Requests)
+//@ ensures [an_undecodable_extension_is_rejected_from_a_validator_with_an_evm_address] resp.Status == 1 && !jsonok("app.BridgeVoteExtension", bytes(req.VoteExtension)) ==> ret(GetEVMAddressByOperator, 1) != nil
+//@ ensures [reads_only] nothing_written()
